@@ -56,7 +56,8 @@ def run(ctx):
     ctx.defs_file()
     walk.CFGTYPES = {e["n"]: e["t"] for e in ctx.defs["cfgdb"]}
     n = grammar(ctx, ("def", "variant", "msgid", "cfg"), "C16")
-    lays = [l for l in walk.load_layouts(ctx, "MC_Walk_quick.cfg") if l["c"] in (0, 1)]
+    all_lays = walk.load_layouts(ctx, "MC_Walk_quick.cfg")
+    lays = [l for l in all_lays if l["c"] in (0, 1)]
     ctx.extra["unreachable_table_entries"] = sorted({"%s %s" % (("GET", "SET", "POLL")[l["m"]], l["name"]) for l in lays if not l["reachable"]})
     run_batch(ctx, MODULE, CFG, c02.cases(ctx, lays, ("zero", "one"), prop="C16"), walk.OBSERVERS, sigfn, c02.negfn, chunk=6000)
     # every declared mode of a message used back to back in ONE interpreter (GET, SET, POLL of the same class/ID, ascending and
@@ -66,6 +67,37 @@ def run(ctx):
         order = sorted(sib, key=lambda l: (l["cls"], l["id"], -l["m"] if rev else l["m"], l["name"]))
         run_batch(ctx, MODULE, CFG, list(c02.cases(ctx, order, ("count",), prop="C16")), walk.OBSERVERS, sigfn, c02.negfn, chunk=6000, parallel=False)
     ctx.extra["sibling_mode_sequences"] = 2 * len(sib)
+    # ... and right after a hostile history (a construction refused inside a repeating group, a parse failing inside a group)
+    from ..drivers import history
+
+    hists = history.recipes(all_lays, ctx.rng, walk.fill, ctx.defs["cfgdb"])
+
+    def hist_cases():
+        for k, (o, c) in enumerate(c02.cases(ctx, sib, ("one",), prop="C16")):
+            yield (o, dict(c, hist=hists[k % len(hists)]) if hists else c)
+
+    run_batch(ctx, MODULE, CFG, hist_cases(), walk.OBSERVERS, sigfn, c02.negfn, chunk=6000)
+    ctx.extra["hostile_histories"] = len(hists)
+    # the payload-less and the nominal instance of every declared (message, mode), addressed by bytes, by integers and by names
+    from ..drivers import build as _build
+    from . import c04 as _c04
+
+    def gen_forms():
+        seen = set()
+        for l in lays:
+            if not l["reachable"] or not l["pbf"] or (l["m"], l["name"]) in seen:
+                continue
+            seen.add((l["m"], l["name"]))
+            nm = _c04.names_for(ctx.defs, l["cls"], l["id"], l["bfix"])
+            base = {"m": l["m"], "cls": l["cls"], "id": l["id"], "name": l["name"], "names": nm}
+            yield ("c04", dict(base, route="none", P=None, kwargs=None))
+            if l["c"] == 0 and l["len"] is not None and l["len"] >= 0:
+                yield ("c04", dict(base, route="payload", P=walk.fill(l, "zero", ctx.rng, ctx.defs["cfgdb"]).hex(), kwargs=None))
+
+    def sig4(o, i, ev, v):
+        return {"observer": o, "mode": i.get("m", -1), "def": i.get("name", ""), "kind": "usable-by-every-addressing:" + v}
+
+    run_batch(ctx, "T_Frame", "T_Frame.cfg", gen_forms(), _build.OBSERVERS, sig4, _c04.negfn, chunk=6000)
     try:
         from . import buildprops
         buildprops.nominal_build(ctx, lays)
